@@ -1,4 +1,164 @@
-/- oracle_c02 — placeholder driver (replaced when the C02 model is added). -/
+/-
+  oracle_c02 — line-protocol driver for the C02 model (Model.SigHash) and spec (Spec.SigHash).
+  The oracle holds ONE transaction object: its fields, its Spent_outputs and the cache (TxVerVars).
+  Byte strings hex, "-" = empty; numbers decimal.
+
+    tx <ver> <lock> <nin> <nout> <nspent> {<hash> <vout> <seq>}*nin {<value> <pk>}*nout {<value> <pk>}*nspent
+                                           -> ok                (new object, empty cache)
+    reset                                  -> ok                (same object, cache emptied = tx.Clean+AllocVerVars)
+    leg <sc> <nIn> <ht>                    -> R                 Tx.SignatureHash
+    wit <sc> <amount> <nIn> <ht>           -> R                 Tx.WitnessSigHash      (cache threaded)
+    tap <annexhash|nil> <leaf> <codesep> <inPos> <ht> <script:0|1> -> R   Tx.TaprootSigHash (cache threaded)
+    chk <sig> <pubkey> <tapscript:0|1> <annexhash|nil> <leaf> <codesep> <idx>
+                                           -> fail | panic | verify <pubkey> <sig64> <msg>   CheckSchnorrSignature
+    annex <annex>                          -> ok <hash>         the M_annex_hash computation of witness.go
+    delsig <where> <sig>                   -> ok <res> <cnt>    script.delSig
+    cache                                  -> c <p><s><o><t><u> which cache fields are filled (1/0)
+    sleg / swit / stap  (same arguments as leg / wit, stap takes <annex|nil> instead of the hash)
+                                           -> none | one | msg <preimage>       the Spec
+    sdel <where> <sig>                     -> none | ok <res> <cnt>             Spec.findAndDelete
+  R = panic | undefined | const <digest> | hashed <preimage> <digest>
+-/
+import GocoinV.Model.SigHash
+import GocoinV.Spec.SigHash
+import GocoinV.Base.Sha256
 import GocoinV.Base.Proto
-open GocoinV
-def main : IO Unit := Proto.serve () (fun _ _ => ((), "bad-op"))
+open GocoinV GocoinV.SigHash GocoinV.Wire
+
+structure St where
+  tx : Tx := default
+  spent : List TxOut := []
+  cache : Cache := {}
+
+def showRes : Res → String
+  | .panic => "panic"
+  | .undefined => "undefined"
+  | .const d => s!"const {Hex.encode d}"
+  | .hashed p d => s!"hashed {Hex.encode p} {Hex.encode d}"
+
+def parseIns : Nat → List String → Option (List TxIn × List String)
+  | 0, r => some ([], r)
+  | n+1, h :: v :: s :: r => do
+    let h ← Hex.decode h
+    let v ← v.toNat?
+    let s ← s.toNat?
+    let (l, r') ← parseIns n r
+    pure ({ prevHash := h, prevIdx := v, scriptSig := [], sequence := s } :: l, r')
+  | _, _ => none
+
+def parseOuts : Nat → List String → Option (List TxOut × List String)
+  | 0, r => some ([], r)
+  | n+1, v :: p :: r => do
+    let v ← v.toNat?
+    let p ← Hex.decode p
+    let (l, r') ← parseOuts n r
+    pure ({ value := v, pkScript := p } :: l, r')
+  | _, _ => none
+
+def optHex (s : String) : Option (Option Bytes) :=
+  if s == "nil" then some none else (Hex.decode s).map some
+
+def H : Bytes → Bytes := sha256
+def dsha (b : Bytes) : Bytes := sha256 (sha256 b)
+
+def step (st : St) (toks : List String) : St × String :=
+  let bad := (st, "bad-op")
+  match toks with
+  | "tx" :: ver :: lock :: nin :: nout :: nsp :: rest =>
+    match ver.toNat?, lock.toNat?, nin.toNat?, nout.toNat?, nsp.toNat? with
+    | some ver, some lock, some nin, some nout, some nsp =>
+      match parseIns nin rest with
+      | none => bad
+      | some (ins, r1) =>
+        match parseOuts nout r1 with
+        | none => bad
+        | some (outs, r2) =>
+          match parseOuts nsp r2 with
+          | some (sp, []) =>
+            ({ tx := { version := ver, ins := ins, outs := outs, witness := none, lockTime := lock },
+               spent := sp, cache := {} }, "ok")
+          | _ => bad
+    | _, _, _, _, _ => bad
+  | ["reset"] => ({ st with cache := {} }, "ok")
+  | ["cache"] =>
+    let b (x : Bool) := if x then "1" else "0"
+    let c := st.cache
+    (st, s!"c {b c.hashPrevouts.isSome}{b c.hashSequence.isSome}{b c.hashOutputs.isSome}{b c.tapSingle.isSome}{b c.tapOutSingle.isSome}")
+  | ["leg", sc, nIn, ht] =>
+    match Hex.decode sc, nIn.toNat?, ht.toNat? with
+    | some sc, some nIn, some ht =>
+      if ht < 2^32 then (st, showRes (signatureHash H st.tx sc nIn ht)) else bad
+    | _, _, _ => bad
+  | ["wit", sc, am, nIn, ht] =>
+    match Hex.decode sc, am.toNat?, nIn.toNat?, ht.toNat? with
+    | some sc, some am, some nIn, some ht =>
+      if ht < 2^32 then
+        let r := witnessSigHash H st.tx st.cache sc am nIn ht
+        ({ st with cache := r.2 }, showRes r.1)
+      else bad
+    | _, _, _, _ => bad
+  | ["tap", ah, leaf, cs, pos, ht, scr] =>
+    match optHex ah, Hex.decode leaf, cs.toNat?, pos.toNat?, ht.toNat? with
+    | some ah, some leaf, some cs, some pos, some ht =>
+      if ht < 256 ∧ (scr == "0" ∨ scr == "1") then
+        let r := taprootSigHash true H st.tx st.spent st.cache
+                  { annexHash := ah, tapleafHash := leaf, codesepPos := cs } pos ht (scr == "1")
+        ({ st with cache := r.2 }, showRes r.1)
+      else bad
+    | _, _, _, _, _ => bad
+  | ["chk", sig, pk, scr, ah, leaf, cs, idx] =>
+    match Hex.decode sig, Hex.decode pk, optHex ah, Hex.decode leaf, cs.toNat?, idx.toNat? with
+    | some sig, some pk, some ah, some leaf, some cs, some idx =>
+      if scr == "0" ∨ scr == "1" then
+        let r := schnorrPlan true H st.tx st.spent st.cache sig pk (scr == "1")
+                  { annexHash := ah, tapleafHash := leaf, codesepPos := cs } idx
+        ({ st with cache := r.2 },
+          match r.1 with
+          | .fail => "fail"
+          | .panic => "panic"
+          | .verify p s m => s!"verify {Hex.encode p} {Hex.encode s} {Hex.encode m}")
+      else bad
+    | _, _, _, _, _, _ => bad
+  | ["annex", a] =>
+    match Hex.decode a with
+    | some a => (st, s!"ok {Hex.encode (annexHashOf H a)}")
+    | none => bad
+  | ["delsig", w, s] =>
+    match Hex.decode w, Hex.decode s with
+    | some w, some s => let r := delSig w s; (st, s!"ok {Hex.encode r.1} {r.2}")
+    | _, _ => bad
+  | ["sdel", w, s] =>
+    match Hex.decode w, Hex.decode s with
+    | some w, some s =>
+      match Spec.SigHash.findAndDelete w s with
+      | none => (st, "none")
+      | some r => (st, s!"ok {Hex.encode r.1} {r.2}")
+    | _, _ => bad
+  | ["sleg", sc, nIn, ht] =>
+    match Hex.decode sc, nIn.toNat?, ht.toNat? with
+    | some sc, some nIn, some ht =>
+      match Spec.SigHash.legacy st.tx sc nIn ht with
+      | none => (st, "none")
+      | some .one => (st, "one")
+      | some (.msg p) => (st, s!"msg {Hex.encode p}")
+    | _, _, _ => bad
+  | ["swit", sc, am, nIn, ht] =>
+    match Hex.decode sc, am.toNat?, nIn.toNat?, ht.toNat? with
+    | some sc, some am, some nIn, some ht =>
+      match Spec.SigHash.bip143 dsha st.tx sc am nIn ht with
+      | none => (st, "none")
+      | some p => (st, s!"msg {Hex.encode p}")
+    | _, _, _, _ => bad
+  | ["stap", an, leaf, cs, pos, ht, scr] =>
+    match optHex an, Hex.decode leaf, cs.toNat?, pos.toNat?, ht.toNat? with
+    | some an, some leaf, some cs, some pos, some ht =>
+      if scr == "0" ∨ scr == "1" then
+        let ext : Option Spec.SigHash.Ext := if scr == "1" then some { tapleafHash := leaf, codesepPos := cs } else none
+        match Spec.SigHash.bip341 H st.tx st.spent pos ht an ext with
+        | none => (st, "none")
+        | some p => (st, s!"msg {Hex.encode p}")
+      else bad
+    | _, _, _, _, _ => bad
+  | _ => bad
+
+def main : IO Unit := Proto.serve ({} : St) step
